@@ -823,7 +823,25 @@ def r8_media_type_normalised(ctx):
     ctx.check(R, "case-folded", fold, "the media type is case-folded before the lookup: %s" % fold, (f, bb))
 
 
-RULES = [("C09.R8", r8_media_type_normalised), ("C09.R7", r7_every_framing_accepted), ("C09.R1", r1_decoder_inputs), ("C09.R2", r2_primitive_table), ("C09.R3", r3_request_context), ("C09.R4", r4_no_shared_channel),
+def r9_path_segments_decoded_once(ctx):
+    """`every path variable is the percent-decoded segment the client sent`: the request path is split on '/' first and each
+    segment is percent-decoded exactly once with nothing else applied to it.  This is C03.R1, re-evaluated here because
+    its violation is a C09 violation too (adversary change C09-E turned '+' into a space before decoding)."""
+    from . import c03
+    from .lib_c01 import Renamed
+    c03.r1_decode_once(Renamed(ctx, "C09.R9", "a path variable is the client's segment, percent-decoded once, with no other transformation"))
+
+
+def r10_wildcard_gets_the_segments(ctx):
+    """`a wildcard variable is the list of the remaining segments as sent`: the trie walk binds variables to the walk's own
+    segments (single variable: the current one; wildcard: the current one followed by every remaining one, in order, nothing
+    split or merged).  This is C01.R3, re-evaluated here (adversary change C09-F re-split decoded wildcard segments on '/')."""
+    from . import c01
+    from .lib_c01 import Renamed
+    c01.r3_walk_integrity(Renamed(ctx, "C09.R10", "path variables are bound to the segments of the walk: one segment per single variable, all remaining segments in order per wildcard"))
+
+
+RULES = [("C09.R9", r9_path_segments_decoded_once), ("C09.R10", r10_wildcard_gets_the_segments), ("C09.R8", r8_media_type_normalised), ("C09.R7", r7_every_framing_accepted), ("C09.R1", r1_decoder_inputs), ("C09.R2", r2_primitive_table), ("C09.R3", r3_request_context), ("C09.R4", r4_no_shared_channel),
          ("C09.R5", r5_multipart_boundary), ("C09.R6", r6_positional_arguments)]
 
 _F5_NOW = """        let boundary =
@@ -1009,3 +1027,4 @@ SELFTEST = [
 LEVEL_TEXT += ' Also (R7 = C11.R6): the body stream refuses only on counted bytes, a sound lower bound or a transport error, so every framing (Content-Length, chunked, length-less) is treated alike.'
 
 LEVEL_TEXT += " Also (R8): the request's media type is looked up after RFC 9110 normalisation (cut at ';', whitespace trimmed, case folded)."
+LEVEL_TEXT += " Also (R9 = C03.R1, R10 = C01.R3): path variables are the walk's own segments, each percent-decoded exactly once with no other transformation."
